@@ -1,17 +1,143 @@
 /-
-C08, syntactic tie — `pipe.New` (pipe/unbound.go) and the linked queue (pipe/queue.go) as printed from the working
-tree on this run (go/xlate family `gotext`, Gen/PipeText.lean) are, line for line, the text the network model
-Go/Unbound.lean and the pointer-level model Model/Queue.lean were written against (Model/GoText.lean, annotated with
-the control point each line became).  No semantic translation exists for a `select` whose arms have bodies, so any
-edit — also a harmless one — breaks these equalities and is then judged by the enlarged lock-step search.
+C08, translation tie — the pump goroutine of `pipe.New` (pipe/unbound.go) as compiled from the working tree on this
+run (go/xlate family `cfg`, Gen/PipeNewCFG.lean: structured control flow, `select` with arm bodies, break / continue /
+return, deferred close, inlined closures and helpers → minimised control-flow graph, numbered breadth-first) EQUALS
+`Model/PumpCFG.pumpGraph` (`new_graph_gen`), and the successor function `pumpNext` of the network model
+`Go/Unbound.lean` — which every theorem of Props/C08 is about — IS the interpretation of that graph, program point by
+control point (`pump_is_graph`, `step_wf`, `graph_step_sound`, `graph_step_complete`, `graph_init`).
+A rewrite that keeps the control flow compiles to the same graph; the linked queue (pipe/queue.go) keeps the
+syntactic tie (`*_text`: go/xlate family `gotext`, Model/GoText.lean).
 -/
 import Golem.Props.C08
 import Golem.Gen.PipeText
+import Golem.Gen.PipeNewCFG
 import Golem.Model.GoText
+import Golem.Model.PumpCFG
 namespace Golem.Props.C08
-open Golem.Model
+open Golem.Model Golem.Go Golem.Go.Unbound Golem.Model.CFG
 
-theorem new_text : Gen.PipeText.New_text = GoText.New_text := rfl
+variable {α : Type}
+
+/-- the graph compiled from the working tree is the one written next to the model -/
+theorem new_graph_gen : Gen.PipeNew.graph = pumpGraph := by decide
+
+/-- both channels are made with the requested capacity -/
+theorem new_caps_gen : Gen.PipeNew.caps = ["cap", "cap"] := by decide
+
+/-- the model's successor function of the pump IS the interpretation of the graph: for every configuration (program point,
+register, network state) the graph's successors, read as model states, are exactly `pumpNext` of the state it stands for -/
+theorem pump_is_graph (c : Conf α) (h : WF c) :
+    (step pumpGraph c).map abs = pumpNext (abs c) := by
+  obtain ⟨node, reg, st⟩ := c
+  obtain ⟨hlt, hreg⟩ := h
+  simp only at hlt hreg
+  have : node = 0 ∨ node = 1 ∨ node = 2 ∨ node = 3 ∨ node = 4 ∨ node = 5 ∨ node = 6 ∨ node = 7 ∨ node = 8 ∨ node = 9 ∨ node = 10 ∨ node = 11 := by omega
+  rcases this with rfl | rfl | rfl | rfl | rfl | rfl | rfl | rfl | rfl | rfl | rfl | rfl
+  · -- main
+    simp [step, pumpGraph, stepNode, stepArm, sendHeadEg, abs, pcOf, pumpNext, recvIn, sendEg, pushEg]
+    cases hc : st.cancelled <;> cases hb : st.inp.buf <;> cases hcl : st.inp.closed <;> cases hq : st.mq <;> simp <;>
+      (try (cases hec : st.eg.closed <;> simp)) <;> (try split) <;> simp_all [abs, pcOf]
+  · -- drain
+    simp [step, pumpGraph, stepNode, stepArm, abs, pcOf, pumpNext]
+    cases hb : st.inp.buf <;> cases hcl : st.inp.closed <;> simp_all [abs, pcOf]
+  · -- mainGot
+    have : reg.isSome = true := hreg (Or.inl rfl)
+    obtain ⟨x, rfl⟩ := Option.isSome_iff_exists.mp this
+    simp [step, pumpGraph, stepNode, abs, pcOf, pumpNext]
+  · -- flush
+    simp [step, pumpGraph, stepNode, sendHeadEg, abs, pcOf, pumpNext, sendEg, pushEg]
+    cases hq : st.mq <;> simp <;> (try (cases hec : st.eg.closed <;> simp)) <;> (try split) <;> simp_all [abs, pcOf]
+  · -- mainSent
+    simp [step, pumpGraph, stepNode, abs, pcOf, pumpNext]
+  · -- drainGot
+    have : reg.isSome = true := hreg (Or.inr (Or.inl rfl))
+    obtain ⟨x, rfl⟩ := Option.isSome_iff_exists.mp this
+    simp [step, pumpGraph, stepNode, abs, pcOf, pumpNext]
+  · -- closeIn
+    simp [step, pumpGraph, stepNode, abs, pcOf, pumpNext]
+    cases hcl : st.inp.closed <;> simp_all [abs, pcOf]
+  · -- flushSent
+    simp [step, pumpGraph, stepNode, abs, pcOf, pumpNext]
+  · -- closeEg
+    simp [step, pumpGraph, stepNode, abs, pcOf, pumpNext]
+    cases hcl : st.eg.closed <;> simp_all [abs, pcOf]
+  · -- range
+    simp [step, pumpGraph, stepNode, stepArm, abs, pcOf, pumpNext, recvIn]
+    cases hb : st.inp.buf <;> cases hcl : st.inp.closed <;> simp_all [abs, pcOf]
+  · -- exited
+    simp [step, pumpGraph, stepNode, abs, pcOf, pumpNext]
+  · -- rangeGot
+    have : reg.isSome = true := hreg (Or.inr (Or.inr rfl))
+    obtain ⟨x, rfl⟩ := Option.isSome_iff_exists.mp this
+    simp [step, pumpGraph, stepNode, abs, pcOf, pumpNext]
+
+/-- well-formedness as a Boolean, and its preservation -/
+def wfB (c : Conf α) : Bool := decide (c.node < 12) && (!(c.node == 2 || c.node == 5 || c.node == 11) || c.reg.isSome)
+
+theorem step_wf (c : Conf α) (h : wfB c = true) : (step pumpGraph c).all wfB = true := by
+  obtain ⟨node, reg, st⟩ := c
+  simp only [wfB, Bool.and_eq_true, decide_eq_true_eq] at h
+  have : node = 0 ∨ node = 1 ∨ node = 2 ∨ node = 3 ∨ node = 4 ∨ node = 5 ∨ node = 6 ∨ node = 7 ∨ node = 8 ∨ node = 9 ∨ node = 10 ∨ node = 11 := by omega
+  rcases this with rfl | rfl | rfl | rfl | rfl | rfl | rfl | rfl | rfl | rfl | rfl | rfl
+  · cases hc : st.cancelled <;> cases hb : st.inp.buf <;> cases hcl : st.inp.closed <;> cases hq : st.mq <;>
+      cases hec : st.eg.closed <;> by_cases hroom : st.eg.buf.length < st.eg.cap <;>
+      simp_all [step, pumpGraph, stepNode, stepArm, sendHeadEg, wfB]
+  · cases hb : st.inp.buf <;> cases hcl : st.inp.closed <;> simp_all [step, pumpGraph, stepNode, stepArm, wfB]
+  · cases hr : reg <;> simp_all [step, pumpGraph, stepNode, wfB]
+  · cases hq : st.mq <;> cases hec : st.eg.closed <;> by_cases hroom : st.eg.buf.length < st.eg.cap <;>
+      simp_all [step, pumpGraph, stepNode, sendHeadEg, wfB]
+  · simp_all [step, pumpGraph, stepNode, wfB]
+  · cases hr : reg <;> simp_all [step, pumpGraph, stepNode, wfB]
+  · cases hcl : st.inp.closed <;> simp_all [step, pumpGraph, stepNode, wfB]
+  · simp_all [step, pumpGraph, stepNode, wfB]
+  · cases hec : st.eg.closed <;> simp_all [step, pumpGraph, stepNode, wfB]
+  · cases hb : st.inp.buf <;> cases hcl : st.inp.closed <;> simp_all [step, pumpGraph, stepNode, stepArm, wfB]
+  · simp_all [step, pumpGraph, stepNode, wfB]
+  · cases hr : reg <;> simp_all [step, pumpGraph, stepNode, wfB]
+
+/-- every step of the graph is a step of the model … -/
+theorem graph_step_sound (c c' : Conf α) (h : WF c) (hs : c' ∈ step pumpGraph c) : abs c' ∈ pumpNext (abs c) := by
+  rw [← pump_is_graph c h]; exact List.mem_map_of_mem hs
+
+/-- … and every step of the model (from a state a configuration stands for) is a step of the graph -/
+theorem graph_step_complete (c : Conf α) (h : WF c) (q : Net α) (hq : q ∈ pumpNext (abs c)) :
+    ∃ c' ∈ step pumpGraph c, abs c' = q := by
+  rw [← pump_is_graph c h] at hq
+  obtain ⟨c', hc', rfl⟩ := List.mem_map.mp hq
+  exact ⟨c', hc', rfl⟩
+
+/-- the entry of the graph with an empty network is the model's initial state -/
+theorem graph_init (cap : Nat) : abs { node := 0, reg := none, st := (Unbound.init cap : Net α) } = Unbound.init cap := rfl
+
+theorem wf_iff (c : Conf α) : WF c ↔ wfB c = true := by
+  simp only [WF, wfB, Bool.and_eq_true, decide_eq_true_eq, Bool.or_eq_true, Bool.not_eq_true', beq_iff_eq]
+  constructor
+  · rintro ⟨h1, h2⟩
+    refine ⟨h1, ?_⟩
+    by_cases h : c.node = 2 ∨ c.node = 5 ∨ c.node = 11
+    · exact Or.inr (h2 h)
+    · left
+      cases hb : (c.node == 2 || c.node == 5 || c.node == 11)
+      · rfl
+      · exfalso; apply h
+        simp only [Bool.or_eq_true, beq_iff_eq] at hb
+        rcases hb with (hb | hb) | hb
+        · exact Or.inl hb
+        · exact Or.inr (Or.inl hb)
+        · exact Or.inr (Or.inr hb)
+  · rintro ⟨h1, h2⟩
+    refine ⟨h1, fun h => ?_⟩
+    rcases h2 with h2 | h2
+    · exfalso
+      have : (c.node == 2 || c.node == 5 || c.node == 11) = true := by
+        simp only [Bool.or_eq_true, beq_iff_eq]
+        rcases h with h | h | h
+        · exact Or.inl (Or.inl h)
+        · exact Or.inl (Or.inr h)
+        · exact Or.inr h
+      rw [this] at h2; cases h2
+    · exact h2
+
 theorem newq_text : Gen.PipeText.newq_text = GoText.newq_text := rfl
 theorem enq_text : Gen.PipeText.enq_text = GoText.enq_text := rfl
 theorem deq_text : Gen.PipeText.deq_text = GoText.deq_text := rfl
